@@ -63,8 +63,14 @@ type c08Knobs struct {
 	LayoutName      string `json:"layout_name"`
 	// LegacyRole: the SP's metadata has a second SPSSODescriptor role (another protocol, a non-POST binding at the same ACS location, no key descriptors),
 	// listed "first" or "last": the key of the SAML 2.0 role is advertised all the same
-	LegacyRole string  `json:"legacy_role,omitempty"`
-	Layout     []c08KD `json:"sp_key_descriptors"`
+	LegacyRole string `json:"legacy_role,omitempty"`
+	// RoleValid: the validUntil the registered role descriptor (and entity descriptor) carries: "" none, "past" (the registration
+	// was made from metadata published three days ago), "zero" (0001-01-01, as older SP implementations wrote it), "future".
+	// What the metadata says about its own shelf life does not make the key in it a non-key.
+	RoleValid string `json:"registered_metadata_valid_until,omitempty"`
+	// DefaultMark: the registered POST endpoint is marked isDefault="true"
+	DefaultMark bool    `json:"acs_marked_default,omitempty"`
+	Layout      []c08KD `json:"sp_key_descriptors"`
 }
 
 type c08Step struct {
@@ -76,6 +82,8 @@ type c08Step struct {
 	RandErr    int `json:"rand_error_kind,omitempty"` // index into the error kinds a failing source may return (0: a plain error; ENOENT path errors, ErrNotExist, EOFs, EAGAIN, deadline)
 	// emit: the application drives the IdpAuthnRequest API itself and, when writing the response fails, tries again on the SAME request object
 	Retry bool `json:"retry_on_same_request,omitempty"`
+	// emit: the login is IdP-initiated (ServeIDPInitiated for the SP's entity ID): no request, the SP's registered default endpoint
+	IdPInit bool `json:"idp_initiated,omitempty"`
 	// emit: the user carries one more attribute whose value is this many bytes long (the plaintext's length decides block and chunk boundaries)
 	Pad int `json:"filler_attribute_bytes,omitempty"`
 	// rekey: the SP rolls its key over (rsa1 <-> rsa3) and re-registers the same layout with the other certificate
@@ -165,6 +173,8 @@ func genEncrypt(g *Rng, tier string) *Plan {
 		MaxIssueDelayMs: Pick(g, int64(7000), 90_000, 660_000),
 		MaxClockSkewMs:  Pick(g, int64(0), 1000, 180_000),
 		LegacyRole:      Pick(g, "", "", "", "", "first", "last"),
+		RoleValid:       Pick(g, "", "", "", "past", "zero", "future"),
+		DefaultMark:     g.Bool(0.3),
 	}
 	if g.Bool(0.78) {
 		l := c08Layouts[g.Intn(len(c08Layouts))]
@@ -209,6 +219,9 @@ func genEncrypt(g *Rng, tier string) *Plan {
 			st.RandFailAt = 1 + g.Intn(5)
 			st.RandErr = g.Intn(len(c08EntropyErrs))
 			st.Retry = g.Bool(0.5)
+		}
+		if !st.Retry && g.Bool(0.2) {
+			st.IdPInit = true
 		}
 		p.Steps = append(p.Steps, mustJSON(st))
 		if i > 0 && g.Bool(0.2) {
@@ -379,6 +392,8 @@ var c08Methods = []saml.EncryptionMethod{
 // c08Register builds the metadata the IdP's registry holds for the SP: the SP's own published
 // metadata with its key descriptors replaced by the layout, passed through XML.
 var c08LegacyRole string // set from the run's knobs while it executes
+var c08RoleValid string
+var c08DefaultMark bool
 
 // a binding the library keeps the location of but cannot answer on (it blanks the location of bindings it does not know)
 const c08LegacyBinding = saml.HTTPArtifactBinding
@@ -407,6 +422,22 @@ func c08Register(spv *saml.ServiceProvider, kds []c08KD) (*saml.EntityDescriptor
 		out = append(out, d)
 	}
 	md.SPSSODescriptors[0].KeyDescriptors = out
+	if c08RoleValid != "" {
+		at := map[string]time.Time{"past": time.Date(1999, 12, 29, 0, 0, 0, 0, time.UTC), "zero": {}, "future": time.Date(2000, 1, 3, 0, 0, 0, 0, time.UTC)}[c08RoleValid]
+		md.SPSSODescriptors[0].ValidUntil = &at
+		md.ValidUntil = at
+	} else {
+		md.SPSSODescriptors[0].ValidUntil = nil
+	}
+	if c08DefaultMark {
+		for i := range md.SPSSODescriptors[0].AssertionConsumerServices {
+			if md.SPSSODescriptors[0].AssertionConsumerServices[i].Binding == saml.HTTPPostBinding {
+				t := true
+				md.SPSSODescriptors[0].AssertionConsumerServices[i].IsDefault = &t
+				break
+			}
+		}
+	}
 	if c08LegacyRole != "" {
 		legacy := saml.SPSSODescriptor{SSODescriptor: saml.SSODescriptor{RoleDescriptor: saml.RoleDescriptor{ProtocolSupportEnumeration: "urn:oasis:names:tc:SAML:1.1:protocol"}},
 			AssertionConsumerServices: []saml.IndexedEndpoint{{Binding: c08LegacyBinding, Location: spv.AcsURL.String(), Index: 1}}}
@@ -662,8 +693,8 @@ func execEncrypt(t *testing.T, p *Plan) *Result {
 	saml.MaxIssueDelay = ms(k.MaxIssueDelayMs)
 	saml.MaxClockSkew = ms(k.MaxClockSkewMs)
 	_, encRand := installRand(p)
-	c08LegacyRole = k.LegacyRole
-	defer func() { c08LegacyRole = "" }()
+	c08LegacyRole, c08RoleValid, c08DefaultMark = k.LegacyRole, k.RoleValid, k.DefaultMark
+	defer func() { c08LegacyRole, c08RoleValid, c08DefaultMark = "", "", false }()
 	w := &c08World{k: k, exp: c08Expectation(k.Layout), ivs: map[string]int{}, ceks: map[string]int{}}
 	w.rec = &c08Recorder{r: encRand}
 	xmlenc.RandReader = w.rec
@@ -780,6 +811,9 @@ func c08Emit(w *c08World, res *Result, si int, st c08Step) bool {
 			}
 			rep.Code = 500
 		})
+	} else if st.IdPInit {
+		res.probe("idp-initiated-emission")
+		rep = deliver(http.HandlerFunc(func(rw http.ResponseWriter, r *http.Request) { w.idp.ServeIDPInitiated(rw, r, spEntityID(w.sp), "rs") }), "GET", idpSSO+"/launch", "", "", nil)
 	} else {
 		rep = deliver(http.HandlerFunc(w.idp.ServeSSO), "GET", hr.URL.String(), "", "", nil)
 	}
@@ -867,8 +901,18 @@ func c08Emit(w *c08World, res *Result, si int, st c08Step) bool {
 	}
 
 	// --- who can read it
-	own1 := c08Deliver(w.spWithKey(c08SPKey), rawResp, ar.ID)
-	own2 := c08Deliver(w.spWithKey(c08SPKey2), rawResp, ar.ID)
+	reqID := ar.ID
+	spFor := w.spWithKey
+	if st.IdPInit {
+		reqID = ""
+		spFor = func(idx int) *saml.ServiceProvider {
+			spv := w.spWithKey(idx)
+			spv.AllowIDPInitiated = true
+			return spv
+		}
+	}
+	own1 := c08Deliver(spFor(c08SPKey), rawResp, reqID)
+	own2 := c08Deliver(spFor(c08SPKey2), rawResp, reqID)
 	if own1.Panic != nil || own2.Panic != nil {
 		res.Excluded = "panic (reported under C09)"
 		res.probe("sp-panic/genuine-emission")
@@ -904,7 +948,7 @@ func c08Emit(w *c08World, res *Result, si int, st c08Step) bool {
 		name string
 		key  int
 	}{{"other-sp", c08OtherSPKey}, {"mallory", c08MalloryKey}} {
-		d := c08Deliver(w.spWithKey(other.key), rawResp, ar.ID)
+		d := c08Deliver(spFor(other.key), rawResp, reqID)
 		res.fire("misdeliver")
 		res.logf("step %d misdelivered-to=%s decision=%s", si, other.name, d)
 		if d.Panic != nil {
